@@ -44,7 +44,7 @@ class ClockAndHistory(Harness):
     bounds = {
         "quick": "session layouts [[4]], [[2],[3]], [[1],[2],[1]], [[7]] steps; 1-2 markets (+ index market, also with trades on its component); storage and "
                  "generation chunks shrunk to 3 steps (public instance attributes); a buyer and a seller quoting in steps "
-                 "0-2 at solver-chosen prices (ttl 1; the buyer cancels or re-quotes at t=1), a fundamental shock at t=1 and "
+                 "0-2 at solver-chosen prices (ttl 1; the buyer cancels or re-quotes at t=1), a fundamental shock at t=1..2 and "
                  "a drift change at t=2",
         "thorough": "adds two markets with a solver-chosen market per order, and a concrete 205-step run across the real 100-step chunks",
     }
@@ -77,7 +77,7 @@ class ClockAndHistory(Harness):
         rate = g.real("rate", -1, 5, lo_strict=True)
         extra = {"PROBE": {"class": "ProbeAll"},
                  "SHOCK": {"class": "FundamentalPriceShock", "target": "M0", "triggerTime": 1,
-                           "priceChangeRate": rate, "shockTimeLength": 1},
+                           "priceChangeRate": rate, "shockTimeLength": 2 if total > 2 else 1},
                  "DRIFT": {"class": "DriftChange"}}
         sessions[0]["events"] = ["PROBE"] + (["SHOCK"] if total > 1 else []) + (["DRIFT"] if total > 2 else [])
         st = rn.base_settings(n_agents=2 if case["agents"] else 1, sessions=sessions, markets=markets, extra=extra)
